@@ -32,3 +32,10 @@ def digest(obj) -> str:
         return o
 
     return hashlib.sha256(json.dumps(norm(obj), sort_keys=True, separators=(",", ":")).encode()).hexdigest()
+
+
+def deep():
+    """True in the thorough tier: scenario generators widen their bounds (more pages, longer outages,
+    more concurrent actors, longer call sequences)."""
+    import os
+    return os.environ.get("VERIF_TIER_ACTIVE") == "thorough"
